@@ -149,6 +149,68 @@ theorem past_hard_sets_limit_zero (c : Cfg) (s : Sess) (hr : 0 < c.hard - c.soft
   · rw [C13.step_setTarget]
   · trivial
 
+/-- a stretch of session life without a cost evaluation: request tasks come and go freely;
+accounting operations (traffic, errors, bumps, clock, `extra_cost`) only as long as they do not
+re-evaluate (`noEval`) -/
+def quiet (c : Cfg) (s : Sess) : List SOp → Prop
+  | [] => True
+  | .acct op :: ops => noEval c s.acct [op] ∧ quiet c (Sess.step c s (.acct op)).1 ops
+  | .arrive i :: ops => quiet c (Sess.step c s (.arrive i)).1 ops
+  | .finish i :: ops => quiet c (Sess.step c s (.finish i)).1 ops
+  | .drop i :: ops => quiet c (Sess.step c s (.drop i)).1 ops
+
+theorem absorb_at_zero (s : Sess) (hinv : C13.Inv s.lim) (hT : s.lim.T ≤ 0) (op : C13.Op)
+    (hop : op.isSetTarget = false) :
+    C13.Inv (s.absorb (C13.step s.lim op)).1.lim ∧ (s.absorb (C13.step s.lim op)).1.lim.T = s.lim.T ∧
+    (s.absorb (C13.step s.lim op)).1.acct = s.acct ∧
+    (∀ j, C13.Ev.entered j ∉ (s.absorb (C13.step s.lim op)).2) := by
+  have f := C13.step_facts s.lim op hinv
+  exact ⟨f.inv, f.T hop, rfl, (C13.zero_refuses s.lim hinv hT op hop).1⟩
+
+/-- **No further request is executed** — at the level of the composed session, for every
+interleaving: from any reachable state in which the limit is ≤ 0 (the evaluated cost has reached
+the hard limit) and as long as the cost is not re-evaluated, whatever requests arrive, whatever
+handlers finish or queued requests are dropped, whatever traffic, errors and bumps are charged
+in between: no handler is started.  (Every request that gets the permit is refused:
+`disconnect_reachable`.) -/
+theorem no_execution_past_hard (c : Cfg) (ops : List SOp) : ∀ (s : Sess), C13.Inv s.lim →
+    s.lim.T ≤ 0 → s.lim.T = s.acct.target → quiet c s ops →
+    (∀ j, C13.Ev.entered j ∉ (Sess.run c s ops).2) ∧ (Sess.run c s ops).1.lim.T = s.lim.T := by
+  induction ops with
+  | nil => intro s _ _ _ _; exact ⟨by simp [Sess.run], rfl⟩
+  | cons op ops ih =>
+    intro s hinv hT hc hq
+    have lim_case : ∀ (lop : C13.Op), lop.isSetTarget = false →
+        Sess.step c s op = s.absorb (C13.step s.lim lop) → quiet c (Sess.step c s op).1 ops →
+        (∀ j, C13.Ev.entered j ∉ (Sess.run c s (op :: ops)).2) ∧
+        (Sess.run c s (op :: ops)).1.lim.T = s.lim.T := by
+      intro lop hl hs hq'
+      obtain ⟨a1, a2, a3, a4⟩ := absorb_at_zero s hinv hT lop hl
+      rw [hs] at hq'
+      have r := ih _ a1 (by rw [a2]; exact hT) (by rw [a2, a3]; exact hc) hq'
+      simp only [Sess.run, hs]
+      refine ⟨?_, by rw [r.2, a2]⟩
+      intro j hj
+      rcases List.mem_append.1 hj with hj | hj
+      · exact a4 j hj
+      · exact r.1 j hj
+    cases op with
+    | arrive i => exact lim_case (.enter i) rfl rfl hq
+    | finish i => exact lim_case (.exit i) rfl rfl hq
+    | drop i => exact lim_case (.cancelWaiter i) rfl rfl hq
+    | acct aop =>
+      obtain ⟨hne, hq'⟩ := hq
+      obtain ⟨t1, _, _⟩ := step_noEval_frame c s.acct aop [] hne
+      have hs : Sess.step c s (.acct aop) =
+          ({ s with acct := C14.step c s.acct aop,
+                    lim := (C13.step s.lim (.setTarget (C14.step c s.acct aop).target)).1 }, []) := rfl
+      have hlim : (C13.step s.lim (.setTarget (C14.step c s.acct aop).target)).1 = s.lim := by
+        rw [C13.step_setTarget, t1, ← hc]
+      rw [hs, hlim] at hq'
+      have r := ih { s with acct := C14.step c s.acct aop } hinv hT (by show s.lim.T = _; rw [t1]; exact hc) hq'
+      simp only [Sess.run, hs, hlim, List.nil_append]
+      exact r
+
 /-- the full statement as a predicate of the start state of the limiter -/
 def disconnect_reachable_full (start : C13.Lim) : Prop :=
   ∀ (c : Cfg) (acct : St) (pre fin : List C13.Op) (i : Nat),
